@@ -50,7 +50,7 @@ PROFILES = {
     "C03": ("mixed", "buffers", "race", "full", "dep", "multibuf", "wide"),
     "C05": ("mixed", "buffers", "full", "stoch", "race", "multibuf", "wide", "outs", "dep", "outstart"),
     "C07": ("transport", "buffers", "full", "stoch", "race", "multibuf", "wide", "dep"),
-    "C08": ("buffers", "race", "full", "dep", "wide", "multibuf"),
+    "C08": ("buffers", "race", "full", "dep", "wide", "multibuf", "fullstart"),
     "C09": ("full", "stoch", "full", "mixed", "wide"),
     "C10": ("full", "stoch", "full", "full", "wide", "outs"),
     "C11": ("transport", "buffers", "full", "race", "wide", "multibuf", "dep", "outstart"),
@@ -79,7 +79,7 @@ def _worker(args):
                                   env_hook=hook, ps=extra.get("ps", (0.1, 0.5, 0.9, 1.0)),
                                   trunc_p=extra.get("trunc_p", 0.3), gen_kw=extra.get("gen_kw"),
                                   phased_p=extra.get("phased_p", 0.0), early_p=extra.get("early_p", 0.6),
-                                  big_p=extra.get("big_p", 0.0))
+                                  big_p=extra.get("big_p", 0.0), reuse_p=extra.get("reuse_p", 0.0))
     drv = jsl.Driver()
     out = {"episodes": len(eps), "records": len(tracer.records), "violations": [], "disagreements": [],
            "ends": collections.Counter(e.end for e in eps), "features": collections.Counter(),
@@ -93,6 +93,8 @@ def _worker(args):
         out["features"]["p=%s" % f.get("p")] += 1
         if f.get("custom_buffers"):
             out["features"]["custom_buffers"] += 1
+        if f.get("reused_env"):
+            out["features"]["episode_on_a_reused_environment"] += 1
 
     def ep_of(k):
         return next(e for e in eps if e.first <= k < e.last)
@@ -137,7 +139,7 @@ def _worker(args):
     out["states"] = st.get("states", 0)
     # (output_done is an invariant only from initial states without unfinished jobs in an output buffer - fresh2, the
     #  hypothesis of the theorems: episodes of the 'outstart' profile start outside it)
-    sv = [e_ for e_ in sv if not (e_[2] == "output_done" and ep_of(e_[0]).feats.get("profile") == "outstart")]
+    sv = [e_ for e_ in sv if not (e_[2] == "output_done" and ep_of(e_[0]).feats.get("profile") in ("outstart", "fullstart"))]
     for k, pos, name, s in sv[:50]:
         out["violations"].append({"kind": "state:" + name, "detail": "clause %s false at %s" % (name, pos),
                                   "replay": replay_of(k, state=s, position=pos)})
@@ -583,7 +585,7 @@ def c12(ctx):
 
 
 def c04(ctx):
-    sm_check(ctx, n_quick=200, custom_p=0.4, extra={"hook": "c04", "record_env": True})
+    sm_check(ctx, n_quick=200, custom_p=0.4, extra={"hook": "c04", "record_env": True, "reuse_p": 0.2})
     keep_only(ctx, lambda v: not v["kind"].startswith("outcome:"))
     _merge_hook(ctx, "c04_")
     # episodes OUTSIDE the hypotheses of the theorems: jobs that start in the output buffer with all their operations
@@ -615,8 +617,8 @@ def c04(ctx):
 
 
 def c18(ctx):
-    sm_check(ctx, n_quick=200, extra={"hook": "c18", "record_mw": True, "record_env": True,
-                                      "ps": (0.1, 0.5, 0.3, 0.8), "trunc_p": 0.6})
+    sm_check(ctx, n_quick=240, extra={"hook": "c18", "record_mw": True, "record_env": True,
+                                      "ps": (0.1, 0.5, 0.3, 0.8), "trunc_p": 0.6, "reuse_p": 0.35})
     keep_only(ctx, lambda v: not v["kind"].startswith("outcome:") and not v["kind"].startswith("state:"))
     _merge_hook(ctx, "c18_")
 
